@@ -21,6 +21,9 @@ extern "C"
     void sym_assume_eq_implies_eq(int n, const double* a, const double* b, double c, double d);
     // forking-free obligations (violation iff the negation is satisfiable under the path condition)
     void sym_check_cmp(double a, int op, double b, const char* label);
+    // exact comparison (no rounding tolerance at solver level nor in the IEEE replay): for obligations that compare values the
+    // code under test only moves around (callback results, stored cells), where any difference is a real difference
+    void sym_check_cmp_exact(double a, int op, double b, const char* label);
     // |a-b| <= rel * (1 + |a| + |b|)
     void sym_close(double a, double b, double rel, const char* label);
     // boolean obligation on an already concrete condition
@@ -86,3 +89,5 @@ static inline double sym_box(const std::string& s, double lo, double hi)
 #define SYM_LT_(a, b, label) sym_check_cmp((a), SYM_LT, (b), label)
 #define SYM_GE_(a, b, label) sym_check_cmp((a), SYM_GE, (b), label)
 #define SYM_GT_(a, b, label) sym_check_cmp((a), SYM_GT, (b), label)
+#define SYM_LE_X(a, b, label) sym_check_cmp_exact((a), SYM_LE, (b), label)
+#define SYM_EQ_X(a, b, label) sym_check_cmp_exact((a), SYM_EQ, (b), label)
